@@ -163,7 +163,7 @@ func unmarshalJSONValue[T constraint.ParserInput](input T, r Rule) (Size, error)
 		if r&RuleEnableJSONStringForm == 0 {
 			return 0, newParseError(defaultParserFuncName, input, ErrStringFormDisabled)
 		}
-		return unmarshalText([]byte(v), 0)
+		return unmarshalText([]byte(v), r&ruleUnmarshalTextMask)
 	default:
 		return 0, newParseError(defaultParserFuncName, input, fmt.Errorf("%w: expected json.Delim, json.Number or string instead of %T", ErrInvalidType, t))
 	}
